@@ -1228,7 +1228,8 @@ theorem writerRun_spec {P : Params} {F : Fmt} {calls : List (List TarEnt × Byte
     have hbtoc : b.toc = w.toc := by rw [← h]; simp [close, wtf_toc, closeGz_toc]
     refine ⟨(closeGz w).closed, hcl.inv.pos, ?_, ?_, hlos, ⟨gs, by rw [hbtoc, htoc'], hfa⟩, ?_⟩
     · rw [← hview, hcl.stream, htr.stream]; simp [W.view]
-    · rw [← h, hbtoc]
+    · have hct : (close F w tocTar a).toc = w.toc := by simp [close, wtf_toc, closeGz_toc]
+      rw [← h, hct]
       simp only [close, closeGz_toc]
       rw [hcl.inv.cw, hcl.inv.hash, hview]
     · intro hh
